@@ -12,6 +12,7 @@ Driver of C10 (stateful). Requests (see `harness/c10.py`):
                                   o = object number (ignored here), kind obj|rec|hcmd, mode c (coloured) n (no colour) l / m (line-wise coloured / no colour), L / M (whole text first, then the lines)
   res <r> <o> <k|g> <c|n> <top> <subs> <lines>   r = obj.ch_text(...) (lazy: only the palette is made)
   str <r> <s|p|n>                 str(r) / r.plain_text() / len(r): the whole text is made once and memoised
+  derive <r> <how>                a text handed out by the result is mutated by the caller (acknowledged)
   iter <i> <r> / next <i> <n>     it = iter(r) / the next n lines of it
   setfmt <o> <fmt>                table.fmt = fmt (layout only: acknowledged)
   gp <i> / gpi <syntax id>        str(global_palette.<accessor i>("x")) / str(global_palette[id]("x"))
@@ -130,7 +131,21 @@ def handle (s : State) (line : String) : State × String :=
     | some k, some top, some subs, some ls =>
       let nc := mode = "n" || mode = "m" || mode = "M"
       let sh : Shape := ⟨top, subs, ls.map (·.line)⟩
-      if pk = "o" then
+      if pk = "s" then
+        -- palette=<PaletteClass(synced=True)>: the palette object that follows the global configuration; with
+        -- no_color `_mk_palette` asks for `type(palette)(no_color=True)` (per-class no-colour palette)
+        match mkSynced cfg top s with
+        | .error e => (s, "err " ++ e.name)
+        | .ok s1 =>
+          if nc then
+            match render cfg reuseAlloc s1.global true sh s1 with
+            | .ok (s', out) => (s', observe kind mode out)
+            | .error e => (s1, "err " ++ e.name)
+          else
+            match syncedLines s1 top sh.lines with
+            | .ok out => (s1, observe kind mode out)
+            | .error e => (s1, "err " ++ e.name)
+      else if pk = "o" then
         -- the program makes the palette object from configuration k; with no_color `_mk_palette` then asks for
         -- `type(palette)(no_color=True)`, i.e. under the global configuration
         match mkPalette cfg reuseAlloc top k false s with
@@ -158,6 +173,15 @@ def handle (s : State) (line : String) : State × String :=
       | .ok (s', w) =>
         (s', if how = "n" then "ok " ++ toString (plainOf w).length
              else if how = "p" then "ok " ++ showCps (plainOf w) else "ok " ++ showCps (strOf w))
+      | .error e => (s, "err " ++ e.name)
+    | none => (s, "bad-op")
+  | ["derive", r, _how] =>
+    -- a text derived from the result (fixed_len / get_ch_text / + / slice) is extended in place by the caller:
+    -- the result is materialised, nothing else happens to it
+    match r.toNat? with
+    | some r =>
+      match strRes cfg reuseAlloc r s with
+      | .ok (s', _) => (s', "ok")
       | .error e => (s, "err " ++ e.name)
     | none => (s, "bad-op")
   | ["iter", i, r] =>
